@@ -14,7 +14,7 @@
 \* token streams for the replay engine.
 EXTENDS Integers, Sequences, FiniteSets, TLC, Json
 
-CONSTANTS Family,    \* "scalars" | "flat" | "nested"
+CONSTANTS Family,    \* "scalars" | "flat" | "nested" | "deep" | "mutants"
           Emit
 
 IntSyms == {"0", "1", "-1", "2^53", "-2^53", "2^53+1", "max", "min"}
@@ -31,14 +31,19 @@ SMap(ks, es) == [k |-> "smap", ks |-> ks, es |-> es]
 IMap(ks, es) == [k |-> "imap", ks |-> ks, es |-> es]
 \* "7": a numeric string key; keys starting with "@" are symbolic classes concretised by the replay engine
 \* (@ctl: control characters and DEL, @quote: quote and backslash, @mb: multi-byte, @html: < & >, @empty: "")
-StrKeySeqs == {<<"a">>, <<"a", "b">>, <<"b", "a">>, <<"k y">>, <<"7">>, <<"@ctl">>, <<"@quote", "a">>, <<"@mb">>, <<"a", "@html">>, <<"@empty">>}
+\* PHP key rule: a string key that is the canonical decimal spelling of an integer IS that integer key
+\* ("7", "-3"); any other numeric-looking spelling stays a string key ("007", "+5", "-0", "7 ").
+NumericCanon == {"7", "-3"}
+StrKeySeqsCore == {<<"a">>, <<"a", "b">>, <<"b", "a">>, <<"k y">>, <<"7">>, <<"@ctl">>, <<"@quote", "a">>, <<"@mb">>, <<"a", "@html">>, <<"@empty">>}
+\* numeric-looking spellings (flat family only: the nested universes grow with the square of this set)
+StrKeySeqsNum == {<<"007">>, <<"007", "7">>, <<"+5">>, <<"-0">>, <<"7 ", "a">>, <<"-3", "7">>, <<"a", "-3">>}
 IntKeySeqs == {<<3>>, <<3, 7>>, <<7, 3>>, <<1, 2>>, <<0, 2>>}
 Tuples(S, n) == [1..n -> S]
 Containers(E) == {List(es) : es \in Tuples(E, 0) \cup Tuples(E, 1) \cup Tuples(E, 2)}
-                 \cup {SMap(ks, es) : ks \in StrKeySeqs, es \in Tuples(E, 1) \cup Tuples(E, 2)}
+                 \cup {SMap(ks, es) : ks \in StrKeySeqsCore, es \in Tuples(E, 1) \cup Tuples(E, 2)}
                  \cup {IMap(ks, es) : ks \in IntKeySeqs, es \in Tuples(E, 1) \cup Tuples(E, 2)}
 WellFormed(v) == v.k \in {"smap", "imap"} => Len(v.ks) = Len(v.es)
-Flat(u) == {v \in Containers(FewScalars) : WellFormed(v)}
+Flat(u) == {v \in Containers(FewScalars) \cup {SMap(ks, es) : ks \in StrKeySeqsNum, es \in Tuples(FewScalars, 1) \cup Tuples(FewScalars, 2)} : WellFormed(v)}
 Inner(u) == {v \in Containers(TwoScalars) : WellFormed(v) /\ (v.k = "list" => Len(v.es) <= 1)}
 Nested(u) == {v \in Containers(Inner(u) \cup {Sc("int", "1")}) : WellFormed(v)}
 Deep(u) == {List(<<w>>) : w \in {List(<<v>>) : v \in Nested(u)}} \cup {SMap(<<"a">>, <<w>>) : w \in {IMap(<<3>>, <<v>>) : v \in Nested(u)}}
@@ -85,7 +90,8 @@ SerTok(v) ==
     [] v.k = "smap" -> <<T("a", IntStr(Len(v.es)))>> \o SerKV(v.ks, v.es, 1, FALSE) \o <<T("}", "")>>
     [] v.k = "imap" -> <<T("a", IntStr(Len(v.es)))>> \o SerKV(v.ks, v.es, 1, TRUE) \o <<T("}", "")>>
 SerKV(ks, es, i, isInt) == IF i > Len(ks) THEN <<>>
-                           ELSE <<IF isInt THEN T("ki", IntStr(ks[i])) ELSE T("ks", ks[i])>> \o SerTok(es[i]) \o SerKV(ks, es, i + 1, isInt)
+                           ELSE <<IF isInt THEN T("ki", IntStr(ks[i])) ELSE IF ks[i] \in NumericCanon THEN T("ki", ks[i]) ELSE T("ks", ks[i])>>
+                                \o SerTok(es[i]) \o SerKV(ks, es, i + 1, isInt)
 \* the serialize format keeps the key type, but an array with keys 0..n-1 in order IS a list
 RECURSIVE SP(_, _), SPArr(_, _, _, _, _)
 SP(ts, p) == LET t == ts[p] IN
@@ -105,17 +111,78 @@ SerParse(ts) == SP(ts, 1).v
 RECURSIVE Serify(_)
 Serify(v) == CASE v.k \in {"int", "flt", "str", "lit"} -> v
                [] v.k = "list" -> List([i \in 1..Len(v.es) |-> Serify(v.es[i])])
-               [] v.k = "smap" -> SMap(v.ks, [i \in 1..Len(v.es) |-> Serify(v.es[i])])
+               [] v.k = "smap" -> IF \A i \in 1..Len(v.ks) : v.ks[i] \in NumericCanon
+                                    THEN [k |-> "imapS", ks |-> v.ks, es |-> [i \in 1..Len(v.es) |-> Serify(v.es[i])]]
+                                    ELSE SMap(v.ks, [i \in 1..Len(v.es) |-> Serify(v.es[i])])
                [] v.k = "imap" -> [k |-> "imapS", ks |-> [i \in 1..Len(v.ks) |-> IntStr(v.ks[i])], es |-> [i \in 1..Len(v.es) |-> Serify(v.es[i])]]
+
+\* ---------------------------------------------------------------- decoders accept exactly the well-formed inputs
+\* Family "mutants": the token stream of a value is damaged by one token-level mutation; the recognizers
+\* below (total: 0 = reject, otherwise the next position) say whether the result is still a text of the
+\* format.  The replay engine renders the damaged stream canonically (commas and colons where a writer
+\* puts them) and the decoder must accept it exactly when the recognizer does, and never crash.
+RECURSIVE JV(_, _), JList(_, _), JObj(_, _)
+JV(ts, p) == IF p > Len(ts) THEN 0
+             ELSE LET t == ts[p].t IN
+                  IF t \in {"int", "flt", "str", "lit"} THEN p + 1
+                  ELSE IF t = "[" THEN JList(ts, p + 1) ELSE IF t = "{" THEN JObj(ts, p + 1) ELSE 0
+JList(ts, p) == IF p > Len(ts) THEN 0 ELSE IF ts[p].t = "]" THEN p + 1
+                ELSE LET r == JV(ts, p) IN IF r = 0 THEN 0 ELSE JList(ts, r)
+JObj(ts, p) == IF p > Len(ts) THEN 0 ELSE IF ts[p].t = "}" THEN p + 1
+               ELSE IF ts[p].t # "key" THEN 0
+               ELSE LET r == JV(ts, p + 1) IN IF r = 0 THEN 0 ELSE JObj(ts, r)
+JsonOK(ts) == ts # <<>> /\ JV(ts, 1) = Len(ts) + 1          \* one value, every token accounted for
+
+\* serialize: a:<n>:{ is followed by exactly n (key, value) pairs, a key is an int or a string, a string
+\* carries its exact byte length ("s!" = wrong length), the count is a small non-negative number
+CountOf(v) == CASE v = "0" -> 0 [] v = "1" -> 1 [] v = "2" -> 2 [] v = "3" -> 3 [] OTHER -> -1   \* "-1", "huge" -> malformed
+RECURSIVE SV(_, _), SArr(_, _, _)
+SV(ts, p) == IF p > Len(ts) THEN 0
+             ELSE LET t == ts[p].t IN
+                  IF t \in {"i", "d", "s", "N", "b"} THEN p + 1
+                  ELSE IF t = "a" THEN (IF CountOf(ts[p].v) < 0 THEN 0 ELSE SArr(ts, p + 1, CountOf(ts[p].v)))
+                  ELSE 0
+SArr(ts, p, n) == IF p > Len(ts) THEN 0
+                  ELSE IF n = 0 THEN (IF ts[p].t = "}" THEN p + 1 ELSE 0)
+                  ELSE IF ts[p].t \notin {"ki", "ks"} THEN 0
+                  ELSE LET r == SV(ts, p + 1) IN IF r = 0 THEN 0 ELSE SArr(ts, r, n - 1)
+SerOK(ts) == ts # <<>> /\ SV(ts, 1) = Len(ts) + 1
+
+DropAt(ts, i) == SubSeq(ts, 1, i - 1) \o SubSeq(ts, i + 1, Len(ts))
+DupAt(ts, i) == SubSeq(ts, 1, i) \o SubSeq(ts, i, Len(ts))
+SetAt(ts, i, t) == [ts EXCEPT ![i] = t]
+JsonAlts(t) == CASE t.t = "[" -> {T("{", "")} [] t.t = "]" -> {T("}", "")} [] t.t = "{" -> {T("[", "")} [] t.t = "}" -> {T("]", "")}
+                 [] t.t = "key" -> {T("str", "plain")} [] OTHER -> {}
+SerAlts(t) == CASE t.t = "a" -> {T("a", "-1"), T("a", "huge")} \cup {T("a", c) : c \in {"0", "1", "2", "3"} \ {t.v}}
+                [] t.t = "s" -> {T("s!", t.v)} [] t.t = "ks" -> {T("ks!", t.v), T("kN", ""), T("kd", "1.5"), T("kb", "true")}
+                [] t.t = "ki" -> {T("kN", ""), T("kd", "1.5"), T("kb", "true")}
+                [] t.t = "}" -> {T("]", "")} [] OTHER -> {}
+Mutations(ts, isJson) ==
+  {[op |-> "none", ts |-> ts]}
+  \cup {[op |-> "trunc", ts |-> SubSeq(ts, 1, i)] : i \in 1..(Len(ts) - 1)}
+  \cup {[op |-> "drop", ts |-> DropAt(ts, i)] : i \in 1..Len(ts)}
+  \cup {[op |-> "dup", ts |-> DupAt(ts, i)] : i \in 1..Len(ts)}
+  \cup {[op |-> "extra", ts |-> Append(ts, x)] : x \in (IF isJson THEN {T("]", ""), T("}", ""), T("int", "1")} ELSE {T("}", ""), T("i", "1"), T("N", "")})}
+  \cup UNION {{[op |-> "swap", ts |-> SetAt(ts, i, a)] : a \in (IF isJson THEN JsonAlts(ts[i]) ELSE SerAlts(ts[i]))} : i \in 1..Len(ts)}
+MutBase(u) == TwoScalars \cup {v \in Containers(TwoScalars) : WellFormed(v)}
+              \cup {List(<<v>>) : v \in {w \in Containers(TwoScalars) : WellFormed(w) /\ Len(w.es) = 1}}
+              \cup {SMap(<<"a">>, <<v>>) : v \in {w \in Containers(TwoScalars) : WellFormed(w) /\ Len(w.es) = 1}}
 
 VARIABLES val, done
 vars == <<val, done>>
-Init == val \in Universe /\ done = FALSE
+Init == val \in (IF Family = "mutants" THEN MutBase(0) ELSE Universe) /\ done = FALSE
 Answer == /\ ~done /\ done' = TRUE /\ UNCHANGED val
-          /\ (Emit => PrintT(<<"CASE", ToJson([family |-> Family, value |-> val, json |-> JsonTok(val), ser |-> SerTok(val)])>>))
+          /\ (Emit /\ Family # "mutants" => PrintT(<<"CASE", ToJson([family |-> Family, value |-> val, json |-> JsonTok(val), ser |-> SerTok(val)])>>))
+          /\ (Emit /\ Family = "mutants" =>
+                /\ \A m \in Mutations(JsonTok(val), TRUE) : PrintT(<<"MUT", ToJson([format |-> "json", op |-> m.op, ts |-> m.ts, ok |-> JsonOK(m.ts)])>>)
+                /\ \A m \in Mutations(SerTok(val), FALSE) : PrintT(<<"MUT", ToJson([format |-> "ser", op |-> m.op, ts |-> m.ts, ok |-> SerOK(m.ts)])>>))
 Spec == Init /\ [][Answer]_vars
 
 \* ---------------------------------------------------------------- laws
+\* the recognizers accept what the encoders emit, and truncating an accepted text never gives an accepted text
+EncodersWellFormed == JsonOK(JsonTok(val)) /\ SerOK(SerTok(val))
+NoProperPrefixAccepted == /\ \A i \in 1..(Len(JsonTok(val)) - 1) : ~JsonOK(SubSeq(JsonTok(val), 1, i))
+                          /\ \A i \in 1..(Len(SerTok(val)) - 1) : ~SerOK(SubSeq(SerTok(val), 1, i))
 JsonRoundTrip == JsonParse(JsonTok(val)) = Jsonify(val)
 SerRoundTrip == SerParse(SerTok(val)) = Serify(val)
 \* lists encode as JSON arrays, maps as JSON objects; kinds of scalars are preserved
@@ -126,4 +193,9 @@ RECURSIVE Size(_)
 Size(v) == IF v.k \in {"int", "flt", "str", "lit"} THEN 1
            ELSE 2 + (IF v.k = "list" THEN 0 ELSE Len(v.es)) + (IF Len(v.es) = 0 THEN 0 ELSE IF Len(v.es) = 1 THEN Size(v.es[1]) ELSE Size(v.es[1]) + Size(v.es[2]))
 TokenCount == Len(JsonTok(val)) = Size(val)
+\* serialize keeps distinct keys distinct: the key tokens of a map are pairwise different
+RECURSIVE KeyToks(_, _)
+KeyToks(ts, p) == IF p > Len(ts) THEN <<>> ELSE IF ts[p].t \in {"ki", "ks"} THEN <<ts[p]>> \o KeyToks(ts, p + 1) ELSE KeyToks(ts, p + 1)
+KeysStayDistinct == val.k = "smap" /\ (\A i \in 1..Len(val.es) : val.es[i].k \in {"int", "flt", "str", "lit"}) =>
+                      LET kt == KeyToks(SerTok(val), 1) IN \A i, j \in 1..Len(kt) : i # j => kt[i] # kt[j]
 =============================================================================
